@@ -298,6 +298,9 @@ class TrackedDict(TrackedValue, dict):
     pop = tracked_method(dict.pop)
     popitem = tracked_method(dict.popitem)
     clear = tracked_method(dict.clear)
+    def __ior__(self, other):
+        self.update(other)
+        return self
     def get_untracked(self):
         return {key: val.get_untracked() if isinstance(val, TrackedValue) else val
                 for key, val in self.items()}
@@ -318,6 +321,8 @@ class TrackedList(TrackedValue, list):
     reverse = tracked_method(list.reverse)
     sort = tracked_method(list.sort)
     clear = tracked_method(list.clear)
+    __iadd__ = tracked_method(list.__iadd__)
+    __imul__ = tracked_method(list.__imul__)
     def get_untracked(self):
         return [val.get_untracked() if isinstance(val, TrackedValue) else val for val in self]
 
@@ -344,6 +349,9 @@ class TrackedArray(TrackedList):
     def __setitem__(self, index, item):
         item = validate_item(self.item_type, item)
         TrackedList.__setitem__(self, index, item)
+    def __iadd__(self, items):
+        self.extend(items)
+        return self
 
     def __contains__(self, item):
         if not isinstance(item, str) and hasattr(item, '__iter__'):
